@@ -164,53 +164,96 @@ def all_diff_op_names(ma, mb, table_a=None, table_b=None, limit=40):
     return out
 
 
+def _op_pair_diffs(a, b, num_a, num_b, ta, tb, res):
+    """All differences between two ops at the same walk position: [(diff dict, structural?)]. A structural difference
+    (different op, different region/block/op counts) means the synchronised walk cannot continue."""
+    na, nb = _opname(a), _opname(b)
+    if na != nb:
+        par = a.parent_op()
+        return [({"op": _opname(par) if par is not None else na, "component": "regions",
+                  "detail": f"nested op {na} became {nb}"}, True)]
+    out = []
+    if len(a.results) != len(b.results) or any(
+            res(canon_attr(x.type), ta) != res(canon_attr(y.type), tb) for x, y in zip(a.results, b.results)):
+        out.append(({"op": na, "component": "results",
+                     "detail": f"({', '.join(str(x.type) for x in a.results)}) vs ({', '.join(str(y.type) for y in b.results)})"},
+                    len(a.results) != len(b.results)))
+    oa = [num_a.get(id(o), "ext") for o in a.operands]
+    ob = [num_b.get(id(o), "ext") for o in b.operands]
+    if oa != ob:
+        out.append(({"op": na, "component": "operands", "detail": f"wiring {oa} vs {ob}"}, False))
+    elif [res(canon_attr(o.type), ta) for o in a.operands] != [res(canon_attr(o.type), tb) for o in b.operands]:
+        out.append(({"op": na, "component": "operands", "detail": "operand types differ"}, False))
+    pa, aa = _c_props(a)
+    pb, ab = _c_props(b)
+    pa, aa, pb, ab = (dict(res(tuple(sorted(d.items())), t)) for d, t in ((pa, ta), (aa, ta), (pb, tb), (ab, tb)))
+    for comp, da, db, ga, gb in (("properties", pa, pb, lambda k: a.properties.get(k, a.attributes.get(k)),
+                                  lambda k: b.properties.get(k, b.attributes.get(k))),
+                                 ("attributes", aa, ab, lambda k: a.attributes.get(k), lambda k: b.attributes.get(k))):
+        for k in sorted(set(da) | set(db)):
+            kind = "dropped" if k not in db else "gained" if k not in da else "changed" if da[k] != db[k] else None
+            if kind:
+                out.append(({"op": na, "component": comp, "detail": kind, "key": k,
+                             "a": str(ga(k))[:200], "b": str(gb(k))[:200]}, False))
+    sa = [num_a.get(id(s), "ext") for s in a.successors]
+    sb = [num_b.get(id(s), "ext") for s in b.successors]
+    if sa != sb:
+        out.append(({"op": na, "component": "successors", "detail": f"{sa} vs {sb}"}, False))
+    if len(a.regions) != len(b.regions):
+        out.append(({"op": na, "component": "regions", "detail": f"{len(a.regions)} vs {len(b.regions)} regions"}, True))
+        return out
+    for ri, (ra, rb) in enumerate(zip(a.regions, b.regions)):
+        ba, bb = list(ra.blocks), list(rb.blocks)
+        if len(ba) != len(bb):
+            out.append(({"op": na, "component": "regions", "detail": f"region {ri}: {len(ba)} vs {len(bb)} blocks"}, True))
+            return out
+        for bi, (x, y) in enumerate(zip(ba, bb)):
+            if [res(canon_attr(v.type), ta) for v in x.args] != [res(canon_attr(v.type), tb) for v in y.args]:
+                out.append(({"op": na, "component": "regions", "detail": f"region {ri} block {bi}: block argument types differ"},
+                            len(x.args) != len(y.args)))
+            if len(list(x.ops)) != len(list(y.ops)):
+                out.append(({"op": na, "component": "regions",
+                             "detail": f"region {ri} block {bi}: {len(list(x.ops))} vs {len(list(y.ops))} ops"}, True))
+                return out
+    return out
+
+
 def _op_pair_diff(a, b, num_a, num_b, ta, tb, res):
-    if True:
-        na, nb = _opname(a), _opname(b)
-        if na != nb:
-            par = a.parent_op()
-            return {"op": _opname(par) if par is not None else na, "component": "regions",
-                    "detail": f"nested op {na} became {nb}"}
-        if len(a.results) != len(b.results) or any(
-                res(canon_attr(x.type), ta) != res(canon_attr(y.type), tb) for x, y in zip(a.results, b.results)):
-            return {"op": na, "component": "results",
-                    "detail": f"({', '.join(str(x.type) for x in a.results)}) vs ({', '.join(str(y.type) for y in b.results)})"}
-        oa = [num_a.get(id(o), "ext") for o in a.operands]
-        ob = [num_b.get(id(o), "ext") for o in b.operands]
-        if oa != ob:
-            return {"op": na, "component": "operands", "detail": f"wiring {oa} vs {ob}"}
-        if [res(canon_attr(o.type), ta) for o in a.operands] != [res(canon_attr(o.type), tb) for o in b.operands]:
-            return {"op": na, "component": "operands", "detail": "operand types differ"}
-        pa, aa = _c_props(a)
-        pb, ab = _c_props(b)
-        pa, aa, pb, ab = (res(tuple(sorted(d.items())), t) for d, t in ((pa, ta), (aa, ta), (pb, tb), (ab, tb)))
-        pa, aa, pb, ab = dict(pa), dict(aa), dict(pb), dict(ab)
-        d = _dict_diff(pa, pb)
-        if d:
-            return {"op": na, "component": "properties", "detail": d[0], "key": d[1],
-                    "a": str(a.properties.get(d[1], a.attributes.get(d[1])))[:200],
-                    "b": str(b.properties.get(d[1], b.attributes.get(d[1])))[:200]}
-        d = _dict_diff(aa, ab)
-        if d:
-            return {"op": na, "component": "attributes", "detail": d[0], "key": d[1],
-                    "a": str(a.attributes.get(d[1]))[:200], "b": str(b.attributes.get(d[1]))[:200]}
-        sa = [num_a.get(id(s), "ext") for s in a.successors]
-        sb = [num_b.get(id(s), "ext") for s in b.successors]
-        if sa != sb:
-            return {"op": na, "component": "successors", "detail": f"{sa} vs {sb}"}
-        if len(a.regions) != len(b.regions):
-            return {"op": na, "component": "regions", "detail": f"{len(a.regions)} vs {len(b.regions)} regions"}
-        for ri, (ra, rb) in enumerate(zip(a.regions, b.regions)):
-            ba, bb = list(ra.blocks), list(rb.blocks)
-            if len(ba) != len(bb):
-                return {"op": na, "component": "regions", "detail": f"region {ri}: {len(ba)} vs {len(bb)} blocks"}
-            for bi, (x, y) in enumerate(zip(ba, bb)):
-                if [res(canon_attr(v.type), ta) for v in x.args] != [res(canon_attr(v.type), tb) for v in y.args]:
-                    return {"op": na, "component": "regions", "detail": f"region {ri} block {bi}: block argument types differ"}
-                if len(list(x.ops)) != len(list(y.ops)):
-                    return {"op": na, "component": "regions",
-                            "detail": f"region {ri} block {bi}: {len(list(x.ops))} vs {len(list(y.ops))} ops"}
-    return None
+    d = _op_pair_diffs(a, b, num_a, num_b, ta, tb, res)
+    return d[0][0] if d else None
+
+
+def all_op_diffs(ma, mb, table_a=None, table_b=None, limit=60):
+    """Every distinct (op name, component, key, kind) difference found by a synchronised walk, in walk order, until the
+    walks lose alignment. The first entry is what first_op_diff would return."""
+    num_a, num_b = {}, {}
+    for root, num in ((ma, num_a), (mb, num_b)):
+        for op in root.walk():
+            for r in op.results:
+                num[id(r)] = len(num)
+            for reg in op.regions:
+                for blk in reg.blocks:
+                    num[id(blk)] = len(num)
+                    for arg in blk.args:
+                        num[id(arg)] = len(num)
+    ta, tb = table_a or {}, table_b or {}
+    out, seen = [], set()
+    wa, wb = list(ma.walk()), list(mb.walk())
+    for a, b in zip(wa, wb):
+        stop = False
+        for d, structural in _op_pair_diffs(a, b, num_a, num_b, ta, tb, resolve_resources):
+            sig = (d["op"], d["component"], d.get("key"), d.get("detail") if "key" in d else None)
+            if sig not in seen:
+                seen.add(sig)
+                d["a_op_generic"] = op_text(a, generic=True, limit=500)
+                d["b_op_generic"] = op_text(b, generic=True, limit=500)
+                out.append(d)
+            stop = stop or structural
+        if stop or len(out) >= limit:
+            return out
+    if len(wa) != len(wb) and not out:
+        out.append({"op": "builtin.module", "component": "structure", "detail": f"{len(wa)} vs {len(wb)} ops"})
+    return out
 
 
 def op_text(op, generic=False, limit=400) -> str:
@@ -327,9 +370,10 @@ def roundtrip(m, ctx, generic: bool, *, reference=None, check_clone=True, check_
     else:
         expected, ref_mod, ref_tab = c0, m, tab0
     if c1 != expected:
-        d = first_op_diff(ref_mod, m2, ref_tab, tab1) or {"op": "?", "component": "unattributed", "detail": "canon differs"}
-        d["symptom"] = "canon-differs"
-        S.append(d)
+        ds = all_op_diffs(ref_mod, m2, ref_tab, tab1) or [{"op": "?", "component": "unattributed", "detail": "canon differs"}]
+        for d in ds:
+            d["symptom"] = "canon-differs"
+            S.append(d)
     else:
         try:
             m2.verify()
